@@ -39,7 +39,7 @@ CFG = {
         "harness reads the head variables of a match through Match::get_value; variables renamed by core-rule canonicalisation "
         "((= v0 (F v1)) renames v0 to a generated @F<n>) are located by probing names",
     ],
-    "theorem_backed": "c18_src_instantiate_refines (regenerated instantiate = hand model on concat, both branches), "
+    "theorem_backed": "[session 4] impl Matches (new, match_size, get_match, choose, instantiate with its four loops) and the control facts of step_rules_with_scheduler (F7 / S2 fixes, phase order) are REGENERATED (gen/MatchesFns.v); c18_src_instantiate_refines (the regenerated code refines the hand model, so c18_instantiate_* speak about today's source), c18_src_instantiate_no_panic, c18_src_new_spec, c18_src_match_size, c18_src_get_match, c18_src_step_structure; c18_src_instantiate_refines (regenerated instantiate = hand model on concat, both branches), "
                       "c18_src_instantiate_perm/_all (the hand theorems re-stated over the regenerated function), c18_src_new_spec, "
                       "c18_src_instantiate_no_panic (every vector accepted by Matches::new + every in-range choice list: Ok, and the residual "
                       "is accepted by Matches::new again), c18_src_match_size, c18_src_get_match, c18_src_choose_spec, "
